@@ -316,7 +316,7 @@ func (p *c14Parent) run(f []string) []string {
 		rd := vc14.StartReader(p.dest)
 		resp, events, err := p.child.Do("save", f[1], f[2], f[3], f[6])
 		if err != nil || len(resp) != 5 {
-			rd.Stop("", "")
+			rd.Stop()
 			if err != nil {
 				panic(err)
 			}
